@@ -168,6 +168,7 @@ func c08Hostile(rng *rand.Rand, quick bool) []c08Input {
 	// ---- brotli
 	add("brotli", "wbits24-empty", []byte{0x1f, 0x03}[:2])
 	add("brotli", "mlen-16M-tiny-input", vhlib.UnHex("020000004458e017c0ffff3f"))
+	add("brotli", "zero-distance-via-short-code", vhlib.UnHex("e20200004458801204"))
 	for i := 0; i < 40; i++ {
 		d := vhlib.RandBytes(rng, 30)
 		d[0] = byte([]int{0x0f, 0x1f, 0x11, 0x01}[rng.Intn(4)]) // large windows
@@ -283,7 +284,7 @@ func runC08(r *vhlib.Run) {
 			timedOut := false
 			select {
 			case werr = <-done:
-			case <-time.After(240 * time.Second):
+			case <-time.After(90 * time.Second):
 				cmd.Process.Kill()
 				timedOut = true
 				<-done
